@@ -90,6 +90,11 @@ TextRtInv == R.kind = "textrt" =>
    IN /\ R.directOk /\ R.parseOk /\ R.convOk /\ R.viaConvOk
       /\ R.direct = want
       /\ own(R.viaConv) = want
+\* the same through `text conv | write`: a setting text written in the chord text (it ends at `,` or `}`; blanks and line
+\* breaks inside and at its end belong to it) is the payload of the one text / lyric / marker event
+TextTcInv == R.kind = "texttc" =>
+   /\ R.convOk /\ R.writeOk
+   /\ R.payloads = << <<(CASE R.mkey = "txt" -> 1 [] R.mkey = "lic" -> 5 [] OTHER -> 6)>> \o R.text >>
 \* one line of the instances YAML longer than any line buffer (a long text, a long comment): nothing is cut; four
 \* triads with their bass, one beat each, and the text whole
 BigLineInv == R.kind = "bigline" =>
